@@ -1,3 +1,82 @@
-import ElfioVerif.Model.Writer
+/-
+C06 — saving is deterministic and idempotent.
+-/
+import ElfioVerif.Lemmas.Save
 namespace ElfioVerif.C06
+open Gen
+
+/-! ### F13, machine-checked: a second save of the same object gives different bytes -/
+
+def updSec (o : Obj) (i : Nat) (f : SecBuf → SecBuf) : Obj :=
+  match o.secs[i]? with | some b => { o with secs := o.secs.set i (f b) } | none => o
+def updSecM (o : Obj) (i : Nat) (f : SecBuf → M SecBuf) : M Obj :=
+  match o.secs[i]? with
+  | some b => do let b' ← f b; pure { o with secs := o.secs.set i b' }
+  | none => pure o
+def updSeg (o : Obj) (j : Nat) (f : Seg → Seg) : Obj :=
+  match o.segs[j]? with | some g => { o with segs := o.segs.set j (f g) } | none => o
+
+/-- the object of DESIGN.md F13, built with the model's API functions: ELF64 LSB;
+    `.data` (PROGBITS, WA, 11 bytes, align 8) and `.bss` (NOBITS, WA, 32 bytes, align 8), no explicit
+    addresses, both members of one `PT_LOAD` (align 4096, vaddr 0x400000) -/
+def f13Obj : M Obj := do
+  let o ← create {} .c64 .lsb
+  let o ← sectionsAdd o [0x2e, 0x64, 0x61, 0x74, 0x61]            -- ".data"
+  let o := updSec o 2 fun b => { b with stype := 1, flags := 3, addrAlign := 8 }
+  let o ← updSecM o 2 fun b => b.setData (some [1, 2, 3, 4, 5, 6, 7, 8, 9, 10, 11]) 11
+  let o ← sectionsAdd o [0x2e, 0x62, 0x73, 0x73]                  -- ".bss"
+  let o := updSec o 3 fun b => ({ b with stype := 8, flags := 3, addrAlign := 8 }).setSize 32
+  let o := segmentsAdd o
+  let o := updSeg o 0 fun g =>
+    { g with stype := 1, flags := 6, align := 4096, vaddr := 0x400000, paddr := 0x400000 }
+  let o := updSeg o 0 fun g => segAddSection g 2 8
+  let o := updSeg o 0 fun g => segAddSection g 3 8
+  pure o
+
+/-- first `save()` of the object (fresh, unbudgeted stream) -/
+def f13Save1 : M SaveRes := do let o ← f13Obj; save o {}
+/-- second `save()` of the same object (again into a fresh stream) -/
+def f13Save2 : M SaveRes := do let r ← f13Save1; save r.obj {}
+
+def offsetsOf (r : M SaveRes) : Option (Bool × List Nat) :=
+  match r with | .ok r => some (r.ok, r.obj.secs.map (·.offset.toNat)) | .error _ => none
+def byteAt (r : M SaveRes) (i : Nat) : Option UInt8 :=
+  match r with | .ok r => r.os.content[i]? | .error _ => none
+
+/-- section offsets (null, `.shstrtab`, `.data`, `.bss`) after the first and after the second save:
+    the alignment gap in front of the address-less `.bss` (4107 → 4112) advances the cursor only the
+    first time -/
+theorem save_twice_witness_offsets :
+    offsetsOf f13Save1 = some (true, [0, 4112, 4096, 4112]) ∧
+    offsetsOf f13Save2 = some (true, [0, 4107, 4096, 4107]) := by
+  constructor <;> decide +kernel
+
+/-- byte 4232 of the file = low byte of `sh_offset` of section 1 (`.shstrtab`; the section header
+    table is at 4144 both times): 0x10 (4112) the first time, 0x0b (4107) the second -/
+theorem save_twice_witness_byte : byteAt f13Save1 4232 = some 16 ∧ byteAt f13Save2 4232 = some 11 := by
+  constructor <;> decide +kernel
+
+/-- **F13** : both saves succeed and their bytes differ. -/
+theorem save_twice_witness :
+    ∃ o r1 r2, f13Obj = .ok o ∧ save o {} = .ok r1 ∧ r1.ok = true ∧
+      save r1.obj {} = .ok r2 ∧ r2.ok = true ∧ r1.os.content ≠ r2.os.content := by
+  obtain ⟨o1, o2⟩ := save_twice_witness_offsets
+  obtain ⟨b1, b2⟩ := save_twice_witness_byte
+  cases ho : f13Obj with
+  | error e => simp [f13Save1, ho, offsetsOf, bind, Except.bind] at o1
+  | ok o =>
+    have e1 : f13Save1 = save o {} := by simp [f13Save1, ho, bind, Except.bind]
+    cases h1 : save o {} with
+    | error e => rw [e1, h1] at o1; simp [offsetsOf] at o1
+    | ok r1 =>
+      have e2 : f13Save2 = save r1.obj {} := by simp [f13Save2, e1, h1, bind, Except.bind]
+      cases h2 : save r1.obj {} with
+      | error e => rw [e2, h2] at o2; simp [offsetsOf] at o2
+      | ok r2 =>
+        rw [e1, h1] at o1 b1; rw [e2, h2] at o2 b2
+        simp only [offsetsOf, Option.some.injEq, Prod.mk.injEq] at o1 o2
+        simp only [byteAt] at b1 b2
+        refine ⟨o, r1, r2, rfl, h1, o1.1, h2, o2.1, ?_⟩
+        intro e; rw [e, b2] at b1; cases b1
+
 end ElfioVerif.C06
